@@ -20,7 +20,7 @@ for f in sorted(glob.glob('/verif/seeded/*/meta.json')):
     sigs = []
     for i in det:
         sigs += m["checks"][i].get("signatures", [])[:1]
-    rows.append((m["name"], ", ".join(os.path.basename(x) for x in files), what[:150], "yes" if m.get("suite_passes_with_patch") else "no", ", ".join(det) if det else "**missed**", (sigs[0] if sigs else "")))
+    rows.append((m["name"], ", ".join(os.path.basename(x) for x in files), what[:150], "yes" if m.get("suite_passes_with_patch") else "no", ", ".join(det) if det else ("not a violation as stated (see meta.json)" if m.get("classification") else "**missed**"), (sigs[0] if sigs else "")))
 print("| seed | files changed | change (from its README) | repo tests pass | caught by (quick) | first signature |")
 print("|---|---|---|---|---|---|")
 for r in rows:
